@@ -408,15 +408,45 @@ def run(prog, run):
     if not mp:
         raise AnalysisBroken('C17.R3: MessagePipeline::process(client, extensions, e2eeExt, element) not found')
     mp = mp[0]
+    ext_param = [k for k, p_ in enumerate(mp.params) if 'QXmppE2eeExtension' in (p_.get('t') or '')]
+
+    def enc_custom(f, nid, st):
+        # the case under test: an encryption extension is installed and says the element is encrypted
+        m = f.nodes[nid]
+        if m['k'] == 'call' and f.cname(m).endswith('::isEncrypted'):
+            return (True,)
+        bo = f.binop(nid)
+        if bo and bo[0] in ('==', '!='):
+            sides = [f.nodes[f.skip(x)] for x in bo[1:]]
+            if any(x['k'] == 'var' and x.get('vk') == 'param' and x.get('pidx') in ext_param for x in sides) and any(x['k'] in ('nullptr', 'null') or x.get('v') == 0 for x in sides):
+                return (bo[0] == '!=',)
+        if m['k'] == 'var' and m.get('vk') == 'param' and m.get('pidx') in ext_param:
+            return (True,)
+        return None
+    enc_ev = cfgx.Evaluator(mp, {}, custom=enc_custom)
+
+    def modes(nid, depth=0):
+        """the parse modes the expression can denote for an encrypted element (through named locals and conditional expressions)"""
+        j = mp.resolve(nid)
+        a = mp.nodes[mp.skip(j)]
+        if a['k'] == 'cond' and depth < 6:
+            v = enc_ev.ev(a['c'], None)
+            if v is True:
+                return modes(a['a'], depth + 1)
+            if v is False:
+                return modes(a['b'], depth + 1)
+            return modes(a['a'], depth + 1) | modes(a['b'], depth + 1)
+        cv = mp.const_value(j)
+        return {cv[1]} if cv and cv[0] == 'enum' else {'?'}
     for i, n in mp.calls(MSG + '::parse'):
         if len(n['args']) < 2 or mp.nodes[n['args'][1]]['k'] == 'defarg':
             continue
         run.instance(r3)
-        a = mp.nodes[mp.skip(n['args'][1])]
-        if a['k'] == 'cond' and 'isEncrypted' in mp.fmt(a['c']) and mp.const_value(a['a']) == ('enum', 'QXmpp::ScePublic'):
+        got = modes(n['args'][1])
+        if got == {'QXmpp::ScePublic'}:
             run.ok(r3, mp.loc(i), 'encrypted inbound message parsed with ScePublic')
         else:
-            run.violation(r3, 'MessagePipeline::process#parse-mode', mp.loc(i), 'encrypted inbound message parsed with %s' % mp.fmt(n['args'][1]))
+            run.violation(r3, 'MessagePipeline::process#parse-mode', mp.loc(i), 'encrypted inbound message parsed with %s (modes for an encrypted element: %s)' % (mp.fmt(n['args'][1]), sorted(got)))
 
     if run.tier == 'thorough':
         r4 = run.rule('C17.R4', 'who else serializes a message with an explicit mode (listed)', floor=1)
